@@ -129,9 +129,9 @@ def gen(tier, rng):
 def report(res, prop, bad):
     for (c, r, reason) in bad:
         d = rz.describe(c)
-        res.violation(what="%s %s" % (prop, reason), reason=reason, ret=r.get("ret"), alg=d["alg"], pt=d["pt"], m=d["m"],
-                      alpha=d["alpha"], cpu=d["cpu"], case=d,
-                      ss_same_size=(d["alg"] == "ss"), hooks=[h["k"] for h in r.get("hooks", [])][:30])
+        res.violation(what="%s %s" % (prop, reason), reason=reason, ret=r.get("ret"), alg=d.get("alg", d.get("op", d.get("ctl"))), pt=d.get("pt"), m=d.get("m"),
+                      alpha=d.get("alpha"), cpu=d.get("cpu"), case=d,
+                      ss_same_size=(d.get("alg") == "ss"), hooks=[h["k"] for h in r.get("hooks", [])][:30])
 
 
 def run(res, tier, seed):
